@@ -197,10 +197,11 @@ IdxData(n, v) == IF v % 7 = 5 THEN NaNPrefix(IdxX(n, v), (n + 1) \div 2)
 \* Euclidean norm data: n nonzero integers in 1..4 (k2 twos, k3 threes, k4 fours, the rest ones)
 \* whose sum of squares n + 3 k2 + 8 k3 + 15 k4 is a perfect square r^2.
 IsSq(t, r) == r * r = t
-SqSol(n) == CHOOSE s \in (0..6) \X (0..6) \X (0..6) \X (0..16) :
+RMax(n) == IF n <= 150 THEN 18 ELSE 110
+SqSol(n) == CHOOSE s \in (0..6) \X (0..6) \X (0..6) \X (0..RMax(n)) :
               /\ s[1] + s[2] + s[3] <= n
               /\ IsSq(n + 3 * s[1] + 8 * s[2] + 15 * s[3], s[4])
-HasSqSol(n) == \E s \in (0..6) \X (0..6) \X (0..6) \X (0..16) :
+HasSqSol(n) == \E s \in (0..6) \X (0..6) \X (0..6) \X (0..RMax(n)) :
               /\ s[1] + s[2] + s[3] <= n
               /\ IsSq(n + 3 * s[1] + 8 * s[2] + 15 * s[3], s[4])
 \* the k-th logical slot (after a salted rotation) holds a 2, 3, 4 or 1; signs by formula
@@ -223,7 +224,7 @@ Guard == 777
 
 (***************************** the cases ************************************)
 Empty == <<>>
-Base(f, n, v) == [f |-> f, n |-> n, v |-> v, x |-> Empty, y |-> Empty, a |-> 0, k |-> 0,
+Base(f, n, v) == [f |-> f, n |-> n, v |-> v, x |-> Empty, y |-> Empty, a |-> 0, ai |-> 0, si |-> 0, k |-> 0,
                   w |-> Empty, s |-> 0, iw |-> Empty, allow |-> Empty, e |-> 0, e32 |-> 0, tol |-> 0,
                   incx |-> 1, incy |-> 1, b |-> FALSE, skip |-> FALSE]
 W2(f, n, v, x, y, w)    == [Base(f, n, v) EXCEPT !.x = x, !.y = y, !.w = w]
@@ -233,7 +234,7 @@ Skip(f, n, v)           == [Base(f, n, v) EXCEPT !.skip = TRUE]
 
 IsPos(a) == XLt(0, a)
 
-Case(f, n, v) ==
+RCase(f, n, v) ==
   LET x == XData(n, v)  y == YData(n, v)  a == Alpha(v) IN
   CASE f = "Add"         -> W2(f, n, v, x, y, AddV(x, y))
     [] f = "AddTo"       -> W2(f, n, v, x, y, AddV(x, y))
@@ -295,6 +296,16 @@ Case(f, n, v) ==
                                 kk == Pick(<<-1, 0, 1, 2, 3, n, n + 1, 5>>, v + n)
                                 r == FindS(z, IsPos, kk)
                             IN [Base(f, n, v) EXCEPT !.x = z, !.k = kk, !.iw = r.inds, !.b = r.err]
+    \* Equal: same length and all elements numerically identical (NaN # NaN, -0 = +0);
+    \* Same: as Equal but NaN treated as the same; HasNaN; Reverse
+    [] f = "EqualSame"   -> LET z == IdxData(n, v)
+                                u == IF v % 3 = 0 THEN z ELSE IF v % 3 = 1 THEN Inj(z, PosY(n, v), 9)
+                                     ELSE Map1(LAMBDA t : IF t = 0 THEN NZero ELSE IF t = NZero THEN 0 ELSE t, z)
+                            IN [Base(f, n, v) EXCEPT !.x = z, !.y = u,
+                                  !.b = \A i \in 1..n : XEq(z[i], u[i]),
+                                  !.k = IF \A i \in 1..n : (XEq(z[i], u[i]) \/ (IsNaN(z[i]) /\ IsNaN(u[i]))) THEN 1 ELSE 0,
+                                  !.s = IF \E i \in 1..n : IsNaN(z[i]) THEN 1 ELSE 0]
+    [] f = "Reverse"     -> LET z == IdxData(n, v) IN [Base(f, n, v) EXCEPT !.x = z, !.w = [i \in 1..n |-> z[n + 1 - i]]]
     [] f = "Count"       -> LET z == IdxData(n, v) IN [Base(f, n, v) EXCEPT !.x = z, !.k = Cardinality(Sat(z, IsPos))]
     \* (unstable sort: -0 and +0 compare equal and may come out in either order, so no -0 here)
     [] f = "Argsort"     -> LET z == Force(Map1(LAMBDA t : IF IsNaN(t) THEN 1 ELSE IF t = NZero THEN 0 ELSE t, IdxX(n, v)))
@@ -307,11 +318,17 @@ Case(f, n, v) ==
     [] f = "Span"        -> IF n < 2 THEN Skip(f, n, v) ELSE
                             LET l == D(n, 3, 1, v) * 2   st == Pick(<<1, -2, 3, 0, -1, 4>>, v + n)
                             IN [Base(f, n, v) EXCEPT !.a = l, !.k = l + (n - 1) * st, !.w = SpanS(n, l, l + (n - 1) * st)]
-    \* Span with a special endpoint: only the documented endpoints are pinned
+    \* Span with a NaN / Inf endpoint: only the documented endpoints are pinned ("the first element
+    \* of the destination is l, the final element of the destination is u")
     [] f = "SpanEnds"    -> IF n < 2 THEN Skip(f, n, v) ELSE
                             LET l == Pick(<<NaN, PInf, NInf, 1, -2, PInf, NInf, NaN>>, v)
-                                u == Pick(<<2, NInf, NInf, NaN, PInf, 3, PInf, NaN, -1>>, v + n)
+                                u == IF IsNaN(l) \/ IsInf(l) THEN Pick(<<2, NInf, NInf, NaN, PInf, 3, PInf, NaN, -1>>, v + n)
+                                     ELSE Pick(<<NaN, PInf, NInf>>, v + n)
                             IN [Base(f, n, v) EXCEPT !.x = <<l, u>>]
+    \* the same documented endpoint clause for finite l, u whose step (u-l)/(n-1) is not
+    \* representable: the interior is not pinned (rounding), the endpoints are
+    [] f = "SpanEndsFin" -> IF n < 2 THEN Skip(f, n, v) ELSE
+                            [Base(f, n, v) EXCEPT !.x = <<3 * D(n, 3, 1, v) + 1, 5 * D(n, 5, 2, v + 1) - 2>>]
     \* step 2 so that exact half-way queries exist; query v2/2 in half units: the harness passes q/2
     [] f = "NearestIdxForSpan" -> IF n < 2 THEN Skip(f, n, v) ELSE
                             LET l == 2 * D(n, 3, 1, v)   st == Pick(<<2, -2, 4, -4>>, v + n)
@@ -339,6 +356,165 @@ Case(f, n, v) ==
                             ELSE LET ix == AbsI(IncX(v)) IN
                                  [Base(f, n, v) EXCEPT !.incx = ix, !.x = Lay(SqVec(n, v), ix, Guard),
                                     !.e = ExpOf(v), !.e32 = ExpOf32(v), !.tol = n + 4, !.s = SqRoot(n)]
+
+
+(************************ complex slices (Gaussian integers) ****************)
+\* a complex value is a pair <<re, im>> of plain integers; only finite data (the IEEE behaviour
+\* of complex multiplication on infinities is not part of any documented contract here)
+CAdd2(a, b) == <<a[1] + b[1], a[2] + b[2]>>
+CSub2(a, b) == <<a[1] - b[1], a[2] - b[2]>>
+CMul2(a, b) == <<a[1] * b[1] - a[2] * b[2], a[1] * b[2] + a[2] * b[1]>>
+CConj(a)    == <<a[1], -a[2]>>
+CNorm2(a)   == a[1] * a[1] + a[2] * a[2]
+IDiv(a, b)  == IF a < 0 THEN -((-a) \div b) ELSE a \div b            \* b > 0, exact
+CDiv2(a, b) == LET t == CMul2(a, CConj(b)) IN <<IDiv(t[1], CNorm2(b)), IDiv(t[2], CNorm2(b))>>
+CDivExact(a, b) == LET t == CMul2(a, CConj(b)) IN AbsI(t[1]) % CNorm2(b) = 0 /\ AbsI(t[2]) % CNorm2(b) = 0
+Flat(z)     == [k \in 1..2 * Len(z) |-> z[(k + 1) \div 2][2 - (k % 2)]]
+CVec(n, a, b, v) == [p \in 1..n |-> <<D(p, a, b, v), D(p, a + 1, b + 3, v)>>]
+CAlpha(v)   == Pick(<< <<2, -1>>, <<0, 1>>, <<-1, 0>>, <<1, 2>>, <<0, 0>>, <<-2, 3>>, <<1, 0>> >>, v + Seed)
+CUnits      == << <<1, 0>>, <<0, 1>>, <<-1, 0>>, <<0, -1>>, <<1, 0>>, <<0, -1>> >>
+\* products stay small: units, with a (1+i) or (1-i) every sixth position
+CProdX(n, v) == [p \in 1..n |-> IF (p + Seed + v) % 6 = 0 THEN Pick(<< <<1, 1>>, <<1, -1>> >>, p \div 6 + v)
+                                 ELSE Pick(CUnits, p * 5 + v + Seed)]
+\* divisors: units, +-2, +-2i, 1+i ; dividends even
+CDivY(n, v) == [p \in 1..n |-> Pick(<< <<1, 0>>, <<0, -2>>, <<1, 1>>, <<-1, 0>>, <<0, 1>>, <<2, 0>>, <<-1, 1>>, <<0, 2>>, <<-2, 0>> >>,
+                                      p * 5 + Seed + v)]
+CDivX(n, v) == [p \in 1..n |-> <<2 * D(p, 3, 1, v), 2 * D(p, 4, 4, v)>>]
+CSumS(z)    == Fold(CAdd2, <<0, 0>>, z)
+CW2(f, n, v, x, y, w) == [Base(f, n, v) EXCEPT !.x = Flat(x), !.y = Flat(y), !.w = Flat(w)]
+CW2a(f, n, v, a, x, y, w) == [Base(f, n, v) EXCEPT !.x = Flat(x), !.y = Flat(y), !.a = a[1], !.ai = a[2], !.w = Flat(w)]
+CS2(f, n, v, x, y, s) == [Base(f, n, v) EXCEPT !.x = Flat(x), !.y = Flat(y), !.s = s[1], !.si = s[2]]
+CEmpty == <<>>
+CGuard == <<Guard, Guard>>
+\* first index of the largest / smallest modulus (compared through the squared modulus)
+CMaxAbsIdx(z) == Least({i \in 1..Len(z) : \A j \in 1..Len(z) : CNorm2(z[j]) <= CNorm2(z[i])})
+CMinAbsIdx(z) == Least({i \in 1..Len(z) : \A j \in 1..Len(z) : CNorm2(z[i]) <= CNorm2(z[j])})
+\* pairs built from the real perfect-square tuple of length 2n
+CSqVec(n, v) == LET m == SqVec(2 * n, v) IN [p \in 1..n |-> <<m[2 * p - 1], m[2 * p]>>]
+
+CFns == {"CAdd", "CAddTo", "CSub", "CSubTo", "CMul", "CMulTo", "CMulConj", "CMulConjTo", "CDiv", "CDivTo",
+         "CAddConst", "CScale", "CScaleTo", "CScaleReal", "CScaleRealTo", "CAddScaled", "CAddScaledTo",
+         "CCumSum", "CCumProd", "CSum", "CProd", "CDot", "CNorm2", "CMaxAbsIdx", "CMinAbsIdx",
+         "CReal", "CImag", "CComplex", "CAxpy", "CDotu", "CDotc", "CScal", "CDscal", "CAsum", "CNrm2"}
+
+CCase(f, n, v) ==
+  LET x == CVec(n, 3, 1, v)  y == CVec(n, 5, 2, v)  a == CAlpha(v)  ra == FinAlpha(v) IN
+  CASE f = "CAdd"        -> CW2(f, n, v, x, y, Map2(CAdd2, x, y))
+    [] f = "CAddTo"      -> CW2(f, n, v, x, y, Map2(CAdd2, x, y))
+    [] f = "CSub"        -> CW2(f, n, v, x, y, Map2(CSub2, x, y))
+    [] f = "CSubTo"      -> CW2(f, n, v, x, y, Map2(CSub2, x, y))
+    [] f = "CMul"        -> CW2(f, n, v, x, y, Map2(CMul2, x, y))
+    [] f = "CMulTo"      -> CW2(f, n, v, x, y, Map2(CMul2, x, y))
+    \* x * conj(y)
+    [] f = "CMulConj"    -> CW2(f, n, v, x, y, Map2(LAMBDA p, q : CMul2(p, CConj(q)), x, y))
+    [] f = "CMulConjTo"  -> CW2(f, n, v, x, y, Map2(LAMBDA p, q : CMul2(p, CConj(q)), x, y))
+    [] f = "CDiv"        -> CW2(f, n, v, CDivX(n, v), CDivY(n, v), Map2(CDiv2, CDivX(n, v), CDivY(n, v)))
+    [] f = "CDivTo"      -> CW2(f, n, v, CDivX(n, v), CDivY(n, v), Map2(CDiv2, CDivX(n, v), CDivY(n, v)))
+    [] f = "CAddConst"   -> CW2a(f, n, v, a, x, CEmpty, [i \in 1..n |-> CAdd2(x[i], a)])
+    [] f = "CScale"      -> CW2a(f, n, v, a, x, CEmpty, [i \in 1..n |-> CMul2(a, x[i])])
+    [] f = "CScaleTo"    -> CW2a(f, n, v, a, x, CEmpty, [i \in 1..n |-> CMul2(a, x[i])])
+    [] f = "CScaleReal"  -> CW2a(f, n, v, <<ra, 0>>, x, CEmpty, [i \in 1..n |-> <<ra * x[i][1], ra * x[i][2]>>])
+    [] f = "CScaleRealTo" -> CW2a(f, n, v, <<ra, 0>>, x, CEmpty, [i \in 1..n |-> <<ra * x[i][1], ra * x[i][2]>>])
+    \* y + a * x, dst = y
+    [] f = "CAddScaled"  -> CW2a(f, n, v, a, x, y, [i \in 1..n |-> CAdd2(y[i], CMul2(a, x[i]))])
+    [] f = "CAddScaledTo" -> CW2a(f, n, v, a, x, y, [i \in 1..n |-> CAdd2(y[i], CMul2(a, x[i]))])
+    [] f = "CCumSum"     -> CW2(f, n, v, x, CEmpty, IF n = 0 THEN CEmpty ELSE Scan(CAdd2, x))
+    [] f = "CCumProd"    -> CW2(f, n, v, CProdX(n, v), CEmpty, IF n = 0 THEN CEmpty ELSE Scan(CMul2, CProdX(n, v)))
+    [] f = "CSum"        -> CS2(f, n, v, x, CEmpty, CSumS(x))
+    [] f = "CProd"       -> CS2(f, n, v, CProdX(n, v), CEmpty, Fold(CMul2, <<1, 0>>, CProdX(n, v)))
+    \* cmplxs.Dot: sum conj(x[i]) * y[i]
+    [] f = "CDot"        -> CS2(f, n, v, x, y, CSumS(Map2(LAMBDA p, q : CMul2(CConj(p), q), x, y)))
+    [] f = "CReal"       -> [Base(f, n, v) EXCEPT !.x = Flat(x), !.w = [i \in 1..n |-> x[i][1]]]
+    [] f = "CImag"       -> [Base(f, n, v) EXCEPT !.x = Flat(x), !.w = [i \in 1..n |-> x[i][2]]]
+    \* Complex(dst, real, imag): x = reals, y = imaginary parts, w = flattened pairs
+    [] f = "CComplex"    -> [Base(f, n, v) EXCEPT !.x = Vec(n, 3, 1, v), !.y = Vec(n, 5, 2, v),
+                               !.w = Flat([i \in 1..n |-> <<D(i, 3, 1, v), D(i, 5, 2, v)>>])]
+    [] f = "CMaxAbsIdx"  -> IF n = 0 THEN Skip(f, n, v) ELSE [Base(f, n, v) EXCEPT !.x = Flat(x), !.k = CMaxAbsIdx(x)]
+    [] f = "CMinAbsIdx"  -> IF n = 0 THEN Skip(f, n, v) ELSE [Base(f, n, v) EXCEPT !.x = Flat(x), !.k = CMinAbsIdx(x)]
+    [] f = "CNorm2"      -> IF n = 0 THEN [Base(f, n, v) EXCEPT !.s = 0]
+                            ELSE IF ~HasSqSol(2 * n) THEN Skip(f, n, v)
+                            ELSE [Base(f, n, v) EXCEPT !.x = Flat(CSqVec(n, v)), !.e = ExpOf(v), !.e32 = ExpOf32(v),
+                                    !.tol = 2 * n + 4, !.s = SqRoot(2 * n)]
+    \* ---- strided forms
+    [] f = "CAxpy"       -> LET ix == IncX(v)  iy == IncY(v) IN
+                            [Base(f, n, v) EXCEPT !.a = a[1], !.ai = a[2], !.incx = ix, !.incy = iy,
+                               !.x = Flat(Lay(x, ix, CGuard)), !.y = Flat(Lay(y, iy, CGuard)),
+                               !.w = Flat(Lay([i \in 1..n |-> CAdd2(y[i], CMul2(a, x[i]))], iy, CGuard))]
+    [] f = "CDotu"       -> LET ix == IncX(v)  iy == IncY(v)  r == CSumS(Map2(CMul2, x, y)) IN
+                            [Base(f, n, v) EXCEPT !.incx = ix, !.incy = iy, !.s = r[1], !.si = r[2],
+                               !.x = Flat(Lay(x, ix, CGuard)), !.y = Flat(Lay(y, iy, CGuard))]
+    [] f = "CDotc"       -> LET ix == IncX(v)  iy == IncY(v)
+                                r == CSumS(Map2(LAMBDA p, q : CMul2(CConj(p), q), x, y)) IN
+                            [Base(f, n, v) EXCEPT !.incx = ix, !.incy = iy, !.s = r[1], !.si = r[2],
+                               !.x = Flat(Lay(x, ix, CGuard)), !.y = Flat(Lay(y, iy, CGuard))]
+    [] f = "CScal"       -> LET ix == AbsI(IncX(v)) IN
+                            [Base(f, n, v) EXCEPT !.a = a[1], !.ai = a[2], !.incx = ix, !.x = Flat(Lay(x, ix, CGuard)),
+                               !.w = Flat(Lay([i \in 1..n |-> CMul2(a, x[i])], ix, CGuard))]
+    [] f = "CDscal"      -> LET ix == AbsI(IncX(v)) IN
+                            [Base(f, n, v) EXCEPT !.a = ra, !.incx = ix, !.x = Flat(Lay(x, ix, CGuard)),
+                               !.w = Flat(Lay([i \in 1..n |-> <<ra * x[i][1], ra * x[i][2]>>], ix, CGuard))]
+    \* BLAS asum of a complex vector: sum |re| + |im|
+    [] f = "CAsum"       -> LET ix == AbsI(IncX(v)) IN
+                            [Base(f, n, v) EXCEPT !.incx = ix, !.x = Flat(Lay(x, ix, CGuard)),
+                               !.s = SumS([i \in 1..n |-> AbsI(x[i][1]) + AbsI(x[i][2])])]
+    [] f = "CNrm2"       -> IF n = 0 THEN [Base(f, n, v) EXCEPT !.s = 0]
+                            ELSE IF ~HasSqSol(2 * n) THEN Skip(f, n, v)
+                            ELSE LET ix == AbsI(IncX(v)) IN
+                                 [Base(f, n, v) EXCEPT !.incx = ix, !.x = Flat(Lay(CSqVec(n, v), ix, CGuard)),
+                                    !.e = ExpOf(v), !.e32 = ExpOf32(v), !.tol = 2 * n + 4, !.s = SqRoot(2 * n)]
+
+
+(**************** fixed-size helpers of spatial/r2 and spatial/r3 ***********)
+\* vectors are sequences of 2 or 3 integers, matrices sequences of 9 integers (row major);
+\* the length parameter n only salts the data.
+P3(n, v) == [i \in 1..3 |-> D(i + 3 * n, 3, 1, v)]
+Q3(n, v) == [i \in 1..3 |-> D(i + 3 * n, 5, 2, v)]
+A9(n, v) == [i \in 1..9 |-> D(i + 2 * n, 3, 1, v)]
+B9(n, v) == [i \in 1..9 |-> D(i + 5 * n, 5, 2, v)]
+At(m, i, j) == m[3 * (i - 1) + j]
+Mat9(F(_, _)) == [k \in 1..9 |-> F(((k - 1) \div 3) + 1, ((k - 1) % 3) + 1)]
+Cross3(p, q) == <<p[2] * q[3] - p[3] * q[2], p[3] * q[1] - p[1] * q[3], p[1] * q[2] - p[2] * q[1]>>
+Dot3(p, q) == p[1] * q[1] + p[2] * q[2] + p[3] * q[3]
+Det3(m) == At(m, 1, 1) * (At(m, 2, 2) * At(m, 3, 3) - At(m, 2, 3) * At(m, 3, 2))
+         - At(m, 1, 2) * (At(m, 2, 1) * At(m, 3, 3) - At(m, 2, 3) * At(m, 3, 1))
+         + At(m, 1, 3) * (At(m, 2, 1) * At(m, 3, 2) - At(m, 2, 2) * At(m, 3, 1))
+SFns == {"R3Add", "R3Sub", "R3Scale", "R3Dot", "R3Cross", "R3Norm2", "R2Add", "R2Sub", "R2Scale", "R2Dot",
+         "R2Cross", "R2Norm2", "R3MatMulVec", "R3MatMulVecTrans", "R3MatAdd", "R3MatSub", "R3MatScale",
+         "R3MatMul", "R3MatDet", "R3MatOuter", "R3MatSkew", "R3MatT", "R3VecRow", "R3VecCol"}
+SCase(f, n, v) ==
+  LET p == P3(n, v)  q == Q3(n, v)  a == A9(n, v)  b == B9(n, v)  fa == FinAlpha(v)
+      p2 == SubSeq(p, 1, 2)  q2 == SubSeq(q, 1, 2)
+      B0 == Base(f, n, v) IN
+  CASE f = "R3Add"    -> [B0 EXCEPT !.x = p, !.y = q, !.w = [i \in 1..3 |-> p[i] + q[i]]]
+    [] f = "R3Sub"    -> [B0 EXCEPT !.x = p, !.y = q, !.w = [i \in 1..3 |-> p[i] - q[i]]]
+    [] f = "R3Scale"  -> [B0 EXCEPT !.x = p, !.a = fa, !.w = [i \in 1..3 |-> fa * p[i]]]
+    [] f = "R3Dot"    -> [B0 EXCEPT !.x = p, !.y = q, !.s = Dot3(p, q)]
+    [] f = "R3Cross"  -> [B0 EXCEPT !.x = p, !.y = q, !.w = Cross3(p, q)]
+    [] f = "R3Norm2"  -> [B0 EXCEPT !.x = p, !.s = Dot3(p, p)]
+    [] f = "R2Add"    -> [B0 EXCEPT !.x = p2, !.y = q2, !.w = [i \in 1..2 |-> p[i] + q[i]]]
+    [] f = "R2Sub"    -> [B0 EXCEPT !.x = p2, !.y = q2, !.w = [i \in 1..2 |-> p[i] - q[i]]]
+    [] f = "R2Scale"  -> [B0 EXCEPT !.x = p2, !.a = fa, !.w = [i \in 1..2 |-> fa * p[i]]]
+    [] f = "R2Dot"    -> [B0 EXCEPT !.x = p2, !.y = q2, !.s = p[1] * q[1] + p[2] * q[2]]
+    [] f = "R2Cross"  -> [B0 EXCEPT !.x = p2, !.y = q2, !.s = p[1] * q[2] - p[2] * q[1]]
+    [] f = "R2Norm2"  -> [B0 EXCEPT !.x = p2, !.s = p[1] * p[1] + p[2] * p[2]]
+    [] f = "R3MatMulVec" -> [B0 EXCEPT !.x = a, !.y = p, !.w = [i \in 1..3 |-> At(a, i, 1) * p[1] + At(a, i, 2) * p[2] + At(a, i, 3) * p[3]]]
+    [] f = "R3MatMulVecTrans" -> [B0 EXCEPT !.x = a, !.y = p, !.w = [j \in 1..3 |-> At(a, 1, j) * p[1] + At(a, 2, j) * p[2] + At(a, 3, j) * p[3]]]
+    [] f = "R3MatAdd" -> [B0 EXCEPT !.x = a, !.y = b, !.w = [k \in 1..9 |-> a[k] + b[k]]]
+    [] f = "R3MatSub" -> [B0 EXCEPT !.x = a, !.y = b, !.w = [k \in 1..9 |-> a[k] - b[k]]]
+    [] f = "R3MatScale" -> [B0 EXCEPT !.x = a, !.a = fa, !.w = [k \in 1..9 |-> fa * a[k]]]
+    [] f = "R3MatMul" -> [B0 EXCEPT !.x = a, !.y = b,
+                            !.w = Mat9(LAMBDA i, j : At(a, i, 1) * At(b, 1, j) + At(a, i, 2) * At(b, 2, j) + At(a, i, 3) * At(b, 3, j))]
+    [] f = "R3MatDet" -> [B0 EXCEPT !.x = a, !.s = Det3(a)]
+    [] f = "R3MatOuter" -> [B0 EXCEPT !.x = p, !.y = q, !.a = fa, !.w = Mat9(LAMBDA i, j : fa * p[i] * q[j])]
+    [] f = "R3MatSkew" -> [B0 EXCEPT !.x = p, !.w = <<0, -p[3], p[2], p[3], 0, -p[1], -p[2], p[1], 0>>]
+    [] f = "R3MatT"   -> [B0 EXCEPT !.x = a, !.w = Mat9(LAMBDA i, j : At(a, j, i))]
+    [] f = "R3VecRow" -> [B0 EXCEPT !.x = a, !.k = n % 3, !.w = [j \in 1..3 |-> At(a, (n % 3) + 1, j)]]
+    [] f = "R3VecCol" -> [B0 EXCEPT !.x = a, !.k = n % 3, !.w = [i \in 1..3 |-> At(a, i, (n % 3) + 1)]]
+
+Case(f, n, v) == IF f \in CFns THEN CCase(f, n, v) ELSE IF f \in SFns THEN SCase(f, n, v) ELSE RCase(f, n, v)
+
+\* every emitted complex division is exact
+CDivOK == c.f \in {"CDiv", "CDivTo"} => \A i \in 1..c.n : CDivExact(CDivX(c.n, c.v)[i], CDivY(c.n, c.v)[i])
 
 (************************** generator state space ***************************)
 Init == c \in [f : Fns, n : NMin..NMax, v : 0..NVar-1]
